@@ -25,7 +25,7 @@ CHECKS = {
                 note='ARM paths cannot run on this host. A variant whose intended path never ran (or whose forbidden path ran) makes the result inconclusive, never a pass. The failed self-test is simulated in the harness (the first call of the wrapped entry point carrying the library\'s self-test vector is failed); the CPU is not faulty.'),
     'C04': dict(level='exploration', ref='4/C04',
                 technique='runtime monitoring: trace checker (vlib/evtrace.py rule set C04) over the API-boundary event log of random register/cancel/reset programs run by the real event loop on a simulated kernel (interposed poll/clock_gettime), invariant hook of events_network.c at every callback and poll entry, ASan+UBSan with real and pass-through pool',
-                text='20,000 (quick) / 600,000 (thorough) random programs, each ending in a drain where every surviving registration must fire exactly once; rules: callback only while registered and at most once, socket callback only after a poll reported the direction ready since registration (or the latest poll reported ERR/HUP), timer never early, EEXIST/ENOENT, the six structural invariants.',
+                text='60,000 (quick) / 800,000 (thorough) random programs, each ending in a drain where every surviving registration must fire exactly once; rules: callback only while registered and at most once, socket callback only after a poll reported the direction ready since registration (or the latest poll reported ERR/HUP), timer never early, EEXIST/ENOENT, the six structural invariants.',
                 note='Kernel and clock are simulated (harness/common/simk.c); programs are random, descriptors <= 12; allocation failure is C14.'),
     'C05': dict(level='exploration', ref='4/C05',
                 technique='runtime monitoring: trace checker (vlib/evtrace.py rule set C05) over the same executions as C04, judged against a model of {pending immediates, world-ready sockets, expired timers} in virtual time',
@@ -33,19 +33,19 @@ CHECKS = {
                 note='Unbounded liveness is not decidable by finite runs and is not claimed; progress clauses are bounded by one events_run call. EINTR is injected only into polls that would block.'),
     'C06': dict(level='exploration', ref='4/C06',
                 technique='runtime monitoring: byte-exact stream oracle at the syscall boundary (interposed recv/send/connect/getsockopt/accept/socket/close/poll/clock) with exactly-once counters, ASan+UBSan, real and pass-through pool',
-                text='24,000 (quick) / 1.2M (thorough) scenarios: back-to-back read or write requests on one descriptor with scripted kernel answers (partial lengths, EAGAIN, EINTR, spurious readiness, EOF/errors at random offsets, stalls, cancellation at random steps), simultaneous read+write, connects over lists of 0..5 addresses from 7 behaviours with/without per-address timeout (timing checked in virtual time), accepts with scripted soft/hard errors.',
-                note='Kernel simulated; EAGAIN == EWOULDBLOCK on Linux; connect completions are generated >= 3 ms away from the timeout (ties not generated).'),
+                text='80,000 (quick) / 1.6M (thorough) scenarios on the simulated kernel plus a real-kernel soak (640 / 9,600 socketpair cases with a forked scripted peer; timing-independent rules only): back-to-back read or write requests on one descriptor with scripted kernel answers (partial lengths, EAGAIN, EINTR, spurious readiness, EOF/errors at random offsets, stalls, cancellation at random steps), simultaneous read+write, connects over lists of 0..5 addresses from 7 behaviours with/without per-address timeout (timing checked in virtual time), accepts with scripted soft/hard errors.',
+                note='Kernel simulated for the main workload (the soak uses the real one); EAGAIN == EWOULDBLOCK on Linux; connect completions are generated >= 3 ms away from the timeout (ties not generated).'),
     'C07': dict(level='exploration', ref='4/C07',
                 technique='runtime monitoring: every byte visible through netbuf_read_peek compared with the peer\'s keyed stream, every byte accepted by the interposed send compared with the concatenation of the writes; exactly-once callbacks; ASan+UBSan',
-                text='16,000 (quick) / 300,000 (thorough) histories of wait(k)/peek/consume(j)/cancel with k from 1 to 20000 (growth and compaction of the 4096-byte buffer) and of reserve/consume/write with sizes 0..50000, crossed with segmentations, EAGAIN/EINTR patterns, EOF and failure offsets (incl. early ones that hit small uncoalesced buffers).',
+                text='16,000 (quick) / 300,000 (thorough) simulated-kernel histories (plus a real-kernel soak of 640 / 9,600 socketpair cases) of wait(k)/peek/consume(j)/cancel with k from 1 to 20000 (growth and compaction of the 4096-byte buffer) and of reserve/consume/write with sizes 0..50000, crossed with segmentations, EAGAIN/EINTR patterns, EOF and failure offsets (incl. early ones that hit small uncoalesced buffers).',
                 note='Kernel simulated. After EOF/error is reported the reader is not used further.'),
     'C08': dict(level='exploration', ref='4/C08',
                 technique='runtime monitoring: ASan/UBSan + abort/assert/signal detection + callback counter + range checks on struct http_response made while reading every header string and body byte + live-block count of a tracking allocator + pending-after-close detector, over structured mutations of generated responses on the simulated kernel',
-                text='28,000 (quick) / 1.5M (thorough) (byte string, segmentation, limit, request, cancel step, transport mode) cases: 15 structured mutation families (incl. whitespace after an empty chunk-size line up to the end of the reader\'s buffer, bodies at limit-2..limit+2 in all framings, 64 KiB header blocks, 1xx floods), EOF at every offset of short responses, limits 0/1/2/around the body/large.',
+                text='74,000 (quick) / 1.5M (thorough) (byte string, segmentation, limit, request, cancel step, transport mode) cases: 15 structured mutation families (incl. whitespace after an empty chunk-size line up to the end of the reader\'s buffer, bodies at limit-2..limit+2 in all framings, 64 KiB header blocks, 1xx floods), EOF at every offset of short responses, limits 0/1/2/around the body/large.',
                 note='Kernel simulated; byte strings are sampled from the mutation families, not all byte strings. Leak check = live-block count returns to its pre-request value (pass-through pool build).'),
     'C09': dict(level='exploration', ref='4/C09',
                 technique='runtime monitoring: generator-known (status, headers, body) and request bytes compared with the callback arguments and the bytes captured by the interposed send, ASan+UBSan, leak count',
-                text='12,000 (quick) / 500,000 (thorough) generated well-formed responses: Content-Length / chunked (1..50 chunks, extensions, hex case, leading zeros, trailers, chunks above 1 MiB in thorough) / read-to-EOF, 0..3 interim 1xx responses shorter and longer than the final header block, HEAD/204/304, OWS and colons in values, limits equal to and above the body, four segmentation modes, async connects, tiny send windows.',
+                text='40,000 (quick) / 500,000 (thorough) generated well-formed responses: Content-Length / chunked (1..50 chunks, extensions, hex case, leading zeros, trailers, chunks above 1 MiB in thorough) / read-to-EOF, 0..3 interim 1xx responses shorter and longer than the final header block, HEAD/204/304, OWS and colons in values, limits equal to and above the body, four segmentation modes, async connects, tiny send windows.',
                 note='Header blocks stay below the client\'s 64 KiB limit and chunk-size lines below its 256-byte limit (implementation limits, not part of the claim).'),
     'C10': dict(level='exploration', ref='4/C10',
                 technique='runtime monitoring under ASan+UBSan of the real crypto_dh.c with crypto_entropy_read substituted at link time (blinding chosen by the case); Python big-integer oracle pow(., 2^258+x, p) with p typed in from RFC 3526 and cross-checked against the RFC\'s pi formula',
@@ -65,7 +65,7 @@ CHECKS = {
                 note='Random sampling. Heap-internal checks rely on the LIBCPERCIVA_VERIF peek hook.'),
     'C14': dict(level='fault_enumeration', ref='4/C14',
                 technique='runtime fault injection with monitors: tracking allocator with failpoints under the library (--wrap), one forked child per allocation attempt k (fails once / fails from k on), model-equality and registration monitors, refuse-everything during cannot-fail operations, empty-live-set check after all atexit handlers, ASan+UBSan, simulated kernel for the I/O scenarios',
-                text='12 scenarios (array, queue, map, heap, timer queue, event registrations, network read/write, connect/accept, netbuf reader/writer, a complete HTTP request, helpers + AWS signing, object pool); EVERY allocation attempt of each executed scenario is failed in both modes (about 3,400 children quick, 50,000 thorough).',
+                text='12 scenarios (array, queue, map, heap, timer queue, event registrations, network read/write, connect/accept, netbuf reader/writer, a complete HTTP request, helpers + AWS signing, object pool); EVERY allocation attempt of each executed scenario is failed in both modes (about 6,200 children quick, 45,000 thorough).',
                 note='Exhaustive over the fault points of the executed scenarios, not over all scenarios. libc-internal allocations are not injectable. A request that never calls back after an event-loop error is taken to have been torn down by the library; the exit-time live-set check verifies it.'),
     'C15': dict(level='exploration', ref='4/C15',
                 technique='runtime monitoring under ASan+UBSan (-O1 and -O0 builds) with every input in a heap block of exactly its size and every output in a block of exactly the contract\'s size; range checks on results; per-input CPU-time watchdog; getaddrinfo interposed; thorough adds libFuzzer (clang) and valgrind memcheck',
